@@ -149,7 +149,7 @@ def _list(ctx, R, roles, T):
     for (m, d, l) in loop_exit_edges(g, it):
         if m is it and l == "exhausted":
             continue
-        R.check(m in g.reach_from_edge(tn, done_lab, avoid=[it], exc=False) and m not in g.reach_from_edge(tn, dent_lab, avoid=[it], exc=False), "LIST", "%s|exit|%s" % (q, norm_stmt(m.ast)),
+        R.check((m is tn and l == done_lab) or (m in g.reach_from_edge(tn, done_lab, avoid=[it], exc=False) and m not in g.reach_from_edge(tn, dent_lab, avoid=[it], exc=False)), "LIST", "%s|exit|%s" % (q, norm_stmt(m.ast)),
                 "the listing loop is left only on DONE", "the listing loop can be left at `%s` before DONE: entries are missing" % norm_stmt(m.ast), f.loc(m.ast))
     # list initialised empty, only appended to, returned after close
     ds = [d for d in df.reaching(it, lst) if d.node not in inside]
